@@ -59,6 +59,8 @@ def plan(tier, seed):
         shards.append({"kind": "inputs", "dirs": dirs[i:i + 6]})
     shards.append({"kind": "matrix"})
     shards.append({"kind": "features"})
+    for nm in corpus.extra_names():
+        shards.append({"kind": "extra", "name": nm})
     shards.append({"kind": "bundled"})
     return shards
 
@@ -239,7 +241,7 @@ def _check_py(b, fi, t, bad0, what):
         bad("python-type", f"{what}type {t!r}, expected {PY_OF.get(fi.kind)!r}")
 
 
-def run_program(protos, name, res: Result, w):
+def run_program(protos, name, res: Result, w, each_first: bool = False):
     b = Build(protos)
     try:
         try:
@@ -262,6 +264,12 @@ def run_program(protos, name, res: Result, w):
             res.counters["programs"] += 1
             res.violation("import", ["generated-package-does-not-import", _last_exc(e.detail)], f"{name}: {e.detail[-900:]}", w)
             return
+        if each_first:
+            # import order must not matter: every package imported first in a fresh interpreter
+            for pkg, err in b.import_each_first():
+                res.violation("import", ["generated-package-does-not-import", "when-imported-first:" + _last_exc(err)],
+                              f"{name}: package {pkg or '(root)'} imported first in a fresh interpreter: {err[-700:]}", w)
+            res.counters["packages_imported_first"] += len(b.user_packages())
         check_program(b, res, w, name)
         if len(res.samples) < 2:
             res.sample({"program": name, "files": sorted(protos), "messages": len(b.user_messages()),
@@ -300,6 +308,9 @@ def run_shard(shard) -> Result:
         run_program(corpus.matrix_protos(), "matrix", res, {"item": {"kind": "matrix"}})
     elif k == "features":
         run_program(corpus.feature_protos(), "features", res, {"item": {"kind": "features"}})
+    elif k == "extra":
+        it = {"kind": "extra", "name": shard["name"]}
+        run_program(corpus.item_protos(it), "extra:" + shard["name"], res, {"item": it}, each_first=True)
     elif k == "bundled":
         check_bundled(res)
     total = res.counters.get("programs", 0) + sum(v for kk, v in res.discards.items() if kk == "protoc-rejected-schema")
@@ -397,5 +408,5 @@ def replay(w):
     if w.get("kind") == "bundled":
         check_bundled(res)
     else:
-        run_program(corpus.item_protos(w["item"]), corpus.item_name(w["item"]), res, w)
+        run_program(corpus.item_protos(w["item"]), corpus.item_name(w["item"]), res, w, each_first=w["item"].get("kind") == "extra")
     return res.violations
